@@ -90,6 +90,17 @@ theorem E18_pos : 0 < E18 := by decide
 @[inline] def u128MulDec (a dec : Nat) : Res Nat :=
   if a * dec / E18 ≤ U128MAX then .ok (a * dec / E18) else .panic
 
+/-- `Decimal::inv()` on atomics: `None` for zero, else `⌊10^36 / a⌋` (always fits 128 bits) -/
+@[inline] def decInv (a : Nat) : Option Nat := if a = 0 then none else some (E18 * E18 / a)
+/-- `Decimal256 * Decimal256` on atomics (full-width product, floor; panics on overflow) -/
+@[inline] def dec256Mul (a b : Nat) : Res Nat :=
+  if a * b / E18 ≤ U256MAX then .ok (a * b / E18) else .panic
+/-- `Decimal * Decimal` (128-bit atomics) -/
+@[inline] def dec128Mul (a b : Nat) : Res Nat :=
+  if a * b / E18 ≤ U128MAX then .ok (a * b / E18) else .panic
+/-- `Decimal256::checked_from_ratio(n, d)?` -/
+@[inline] def dec256FromRatioC (n d : Nat) : Res Nat := mulRatioC U256MAX n E18 d
+
 /-- `Uint256 -> Uint128` `try_into().map_err(..)?` -/
 @[inline] def to128 (a : Nat) : Res Nat := if a ≤ U128MAX then .ok a else .err
 
